@@ -15,9 +15,10 @@ import (
 
 const ruleC27 = "rapid: generated contract v1 (struct/resource interfaces, 1-2 enums, 2-5 structs/resources with 1-4 fields of primitive, optional, " +
 	"array, constant-size array, dictionary, nested composite, interface and enum types, 0-3 contract fields); every composite and every enum case is " +
-	"stored in 2 accounts; v2 = v1 under 1-3 of 22 mutation kinds (field add/remove/retype/subtle retype/reorder/rename/access/let-var, declaration " +
+	"stored in 2 accounts; v2 = v1 under 1-3 of 26 mutation kinds (field add/remove/retype/subtle retype/reorder/rename/access/let-var, declaration " +
 	"add/remove/remove with #removedType, conformance add/remove, enum case append/insert/remove/swap, enum raw type, struct<->resource, contract " +
-	"field add/remove/retype). Update through contracts.update on both engines. If accepted: nothing stored may have lost its declaration, enum case or " +
+	"field add/remove/retype, sibling retype A->B keeping qualified spelling and wrappers, conformance swap); a share of types and conformances " +
+	"is written in qualified form (C.A) or through an imported contract (Imp.A, Imp.I), contract fields may be Capability<&T>. Update through contracts.update on both engines. If accepted: nothing stored may have lost its declaration, enum case or " +
 	"v1 conformance, and a generated reader script must borrow/copy every stored value, check isInstance(Type<Declared>()) of every field v2 declares " +
 	"(recursively, inside the contract so that access modifiers do not matter), the enum case of every stored enum value and the conformances. " +
 	"Rejected updates are only counted. Non-trivial: accepted, v2 != v1 and a stored value belongs to a declaration the mutations changed; distinct by v2 source."
@@ -26,6 +27,9 @@ const ruleC27 = "rapid: generated contract v1 (struct/resource interfaces, 1-2 e
 func runUpdatePair(p *capgen.UpdatePair, eng host.Engine) (string, string, error) {
 	h := host.New()
 	a1 := host.Addr(capgen.UpdateAccount)
+	if r := h.Deploy(a1, "Imp", p.ImpCode, eng); r.Err != nil || r.Panic != nil {
+		return "", "", fmt.Errorf("deploying Imp failed: %s", outcome(r))
+	}
 	if r := h.Deploy(a1, "C", p.V1Code, eng); r.Err != nil || r.Panic != nil {
 		return "", "", fmt.Errorf("deploying v1 failed: %s", outcome(r))
 	}
